@@ -216,7 +216,10 @@ def spec_diff(r):
             continue
         en, ed = x['raw'][0] * x['scale'][0], x['raw'][1] * x['scale'][1]
         obs = x['obs'] or [0, 0]
-        ok = obs[1] > 0 and ed > 0 and en != 0 and abs(obs[0] * ed - en * obs[1]) * 2 ** 40 <= abs(en * obs[1])
+        if x['scale'] == [1, 1]:
+            ok = obs[1] > 0 and ed > 0 and en != 0 and obs[0] * ed == en * obs[1]
+        else:
+            ok = obs[1] > 0 and ed > 0 and en != 0 and abs(obs[0] * ed - en * obs[1]) * 2 ** 40 <= abs(en * obs[1])
         if not ok:
             from fractions import Fraction
             exp = Fraction(en, ed)
@@ -276,7 +279,12 @@ def run(ctx):
     try:
         r = gen_c02.generate(patterns=patterns, use_cache=False)
     except gen_c03.Unrecognised as e:
-        raise RuntimeError('translator stopped (fail closed): %s' % e)
+        # a translator that cannot cope is a failed obligation, not an aborted run: the proofs are re-checked on the tables
+        # generated last, and the run is reported as not passing
+        ctx.obligation('tables regenerated from the working tree', False, 'translator', str(e)[:600])
+        ctx.pending_broken = {'kind': 'translator', 'what': 'translator stopped (fail closed): %s' % str(e)[:400]}
+        ctx.coq()
+        return
     ctx.log('tables: %d structs, probe %s' % (len(r['layouts']), 'cached' if r['probe_cached'] else 'fresh'))
     if not ctx.coq():
         ctx.broken_proof()
